@@ -12,8 +12,15 @@ package main
 // (limit-1, limit, limit+1) as often as far beyond.
 
 import (
+	"errors"
 	"fmt"
+	"os"
 	"strings"
+	"sync"
+
+	"github.com/spf13/afero"
+	"github.com/yandex/pandora/core"
+	coreconfig "github.com/yandex/pandora/core/config"
 
 	"verifharness/internal/vh"
 )
@@ -164,4 +171,215 @@ func grpcOptRandom(r *vh.Rand) []string {
 		out = append(out, genGrpcOpt(r, 1, true))
 	}
 	return out
+}
+
+// ---------------------------------------------------------------------------------------
+// a source that FAILS while it is read
+//
+//	rerr <type> <n> <file> <key>=<value>...   the provider of that type, built through the plugin factory like `popt`,
+//	        on a file whose Read fails (an I/O error, not EOF) once n bytes were handed out — in every pass.
+//	        Observation: the syntax of popt.
+//
+// vsFs is the in-memory file system wrapped by faultFs: a file registered in faultAt is opened as a faultFile.
+
+var errInjectedRead = errors.New("injected read error")
+
+type faultFs struct {
+	afero.Fs
+	mu sync.Mutex
+	at map[string]int64
+}
+
+func (f *faultFs) setFault(name string, n int64) {
+	f.mu.Lock()
+	defer f.mu.Unlock()
+	if n < 0 {
+		delete(f.at, name)
+	} else {
+		f.at[name] = n
+	}
+}
+
+func (f *faultFs) wrap(name string, file afero.File, err error) (afero.File, error) {
+	if err != nil {
+		return file, err
+	}
+	f.mu.Lock()
+	n, ok := f.at[name]
+	f.mu.Unlock()
+	if !ok {
+		return file, nil
+	}
+	return &faultFile{File: file, n: n}, nil
+}
+
+func (f *faultFs) Open(name string) (afero.File, error) {
+	file, err := f.Fs.Open(name)
+	return f.wrap(name, file, err)
+}
+
+func (f *faultFs) OpenFile(name string, flag int, perm os.FileMode) (afero.File, error) {
+	file, err := f.Fs.OpenFile(name, flag, perm)
+	if flag&(os.O_WRONLY|os.O_RDWR) != 0 {
+		return file, err
+	}
+	return f.wrap(name, file, err)
+}
+
+type faultFile struct {
+	afero.File
+	n   int64
+	pos int64
+}
+
+func (f *faultFile) Read(p []byte) (int, error) {
+	if f.pos >= f.n {
+		return 0, errInjectedRead
+	}
+	if int64(len(p)) > f.n-f.pos {
+		p = p[:f.n-f.pos]
+	}
+	k, err := f.File.Read(p)
+	f.pos += int64(k)
+	return k, err
+}
+
+func (f *faultFile) Seek(offset int64, whence int) (int64, error) {
+	pos, err := f.File.Seek(offset, whence)
+	if err == nil {
+		f.pos = pos
+	}
+	return pos, err
+}
+
+func (f *faultFile) ReadAt(p []byte, off int64) (int, error) {
+	if off >= f.n {
+		return 0, errInjectedRead
+	}
+	if int64(len(p)) > f.n-off {
+		k, err := f.File.ReadAt(p[:f.n-off], off)
+		if err == nil {
+			err = errInjectedRead
+		}
+		return k, err
+	}
+	return f.File.ReadAt(p, off)
+}
+
+func rerrRun(ptype string, n int64, file []byte, opts []string) string {
+	_ = vsFs.MkdirAll("popt", 0o755)
+	fname := "popt/rerr"
+	vsFault.setFault(fname, -1)
+	_ = vsFs.Remove(fname)
+	if err := afero.WriteFile(vsFs, fname, file, 0o644); err != nil {
+		return "harness-error"
+	}
+	vsFault.setFault(fname, n)
+	defer vsFault.setFault(fname, -1)
+	var prov core.Provider
+	st := guard(func() string {
+		m, err := settingsOf(poptDoc(ptype, fname, opts))
+		if err != nil {
+			return "newerr"
+		}
+		var d struct{ Ammo core.Provider }
+		if err := coreconfig.DecodeAndValidate(m, &d); err != nil {
+			return "newerr"
+		}
+		if d.Ammo == nil {
+			return "newerr"
+		}
+		prov = d.Ammo
+		return ""
+	})
+	if st != "" {
+		return st
+	}
+	return runAny(prov, acquireN)
+}
+
+var rerrTypes = []string{"grpc/json", "grpc/json", "grpc/json", "uri", "uripost", "raw", "http/json"}
+
+func rerrLine(ptype string, n int, file string, kv []string) string {
+	return strings.TrimRight(fmt.Sprintf("rerr %s %d %s %s", ptype, n, vh.HexS(file), strings.Join(kv, " ")), " ")
+}
+
+// the read fails at the start, inside an entry, exactly behind an entry, behind the whole file
+func rerrPositions(file string) []int {
+	ps := []int{0, 1, len(file) - 1, len(file)}
+	for i := 0; i < len(file); i++ {
+		if file[i] == '\n' {
+			ps = append(ps, i, i+1, i+2)
+		}
+	}
+	var out []int
+	seen := map[int]bool{}
+	for _, p := range ps {
+		if p >= 0 && p <= len(file) && !seen[p] {
+			seen[p] = true
+			out = append(out, p)
+		}
+	}
+	return out
+}
+
+func rerrBoundary() []string {
+	var out []string
+	gfile := grpcLine(1, 0) + "\n" + grpcLine(2, 5) + "\n" + grpcLine(3, 2) + "\n"
+	for _, n := range rerrPositions(gfile) {
+		for _, kv := range [][]string{nil, {"passes=" + vh.HexS("1")}, {"passes=" + vh.HexS("2")}, {"limit=" + vh.HexS("2")},
+			{"limit=" + vh.HexS("1"), "passes=" + vh.HexS("1")}, {"passes=" + vh.HexS("1"), "continueonerror=" + vh.HexS("true")}} {
+			out = append(out, rerrLine("grpc/json", n, gfile, kv))
+		}
+	}
+	for _, t := range []string{"uri", "uripost", "raw", "http/json"} {
+		for _, n := range rerrPositions(poptFiles[t]) {
+			out = append(out, rerrLine(t, n, poptFiles[t], nil), rerrLine(t, n, poptFiles[t], []string{"passes=" + vh.HexS("1")}))
+		}
+	}
+	return out
+}
+
+func rerrRandom(r *vh.Rand) string {
+	t := r.Pick(rerrTypes)
+	if t != "grpc/json" {
+		f := poptFiles[t]
+		var kv []string
+		if r.Chance(1, 2) {
+			kv = append(kv, "passes="+vh.HexS(fmt.Sprint(r.Range(1, 3))))
+		}
+		return rerrLine(t, r.Intn(len(f)+1), f, kv)
+	}
+	n := r.Range(1, 5)
+	var b strings.Builder
+	for i := 1; i <= n; i++ {
+		if r.Chance(1, 8) {
+			b.WriteString(r.Pick([]string{"{", "nonsense", `{"tag":1}`}))
+		} else {
+			b.WriteString(grpcLine(i, r.PickInt([]int{0, 1, 3, 8, 20})))
+		}
+		if i < n || r.Chance(4, 5) {
+			b.WriteString("\n")
+		}
+	}
+	f := b.String()
+	pos := rerrPositions(f)
+	at := pos[r.Intn(len(pos))]
+	if r.Chance(1, 3) {
+		at = r.Intn(len(f) + 1)
+	}
+	var kv []string
+	if r.Chance(3, 4) {
+		kv = append(kv, "passes="+vh.HexS(fmt.Sprint(r.PickInt([]int{1, 1, 1, 2, 3, 0}))))
+	}
+	if r.Chance(1, 2) {
+		kv = append(kv, "limit="+vh.HexS(fmt.Sprint(r.Range(0, n+1))))
+	}
+	if r.Chance(1, 4) {
+		kv = append(kv, "maxammosize="+vh.HexS(fmt.Sprint(r.PickInt([]int{0, 60, 70, 100, 4096}))))
+	}
+	if r.Chance(1, 3) {
+		kv = append(kv, "continueonerror="+vh.HexS(r.Pick([]string{"true", "false"})))
+	}
+	return rerrLine(t, at, f, kv)
 }
